@@ -11,19 +11,16 @@ def content(size, seed):
     return bytes(((seed * 31 + i * 7 + (i >> 8) * 13 + (i >> 16)) & 0xff) for i in range(size))
 
 
-def run(ctx, out):
-    spec = S.load_spec()
-    P = G.Packets(spec)
-    rng = ctx.rng
-    thorough = ctx.search_tier == "thorough"
+def gen_cases(spec, P, rng, n_dirs, thorough, wellformed=False):
+    """upload cases: (ops, expected event logs, kinds). `wellformed`: only valid data requests over several files,
+    ended by completion or abort with bytes queued behind it (the part of C05 that concerns the upload loop)."""
     table = {f["path"]: f["id"] for f in spec["file_ids"]}
     paths = sorted(table)
     unrelated = ["README.txt", "firmware/readme", "app8/update.spec", "app0/update.tar", "kernel.gz"]
     ops, want, kinds = [], [], []
     ack = bytes([0x80, 0, 0])
-    n_dirs = 1500 if thorough else 300
     for d in range(n_dirs):
-        k = rng.choice([0, 1, 1, 2, 3, 5, len(paths)])
+        k = rng.choice([2, 3, 5, len(paths)]) if wellformed else rng.choice([0, 1, 1, 2, 3, 5, len(paths)])
         chosen = rng.sample(paths, min(k, len(paths)))
         files = {}
         desc = []
@@ -52,7 +49,7 @@ def run(ctx, out):
             # request plan: random requests, or a structured walk (sequential per file, round-robin over files,
             # continuing in another file at the offset where the previous block ended)
             plan = []
-            mode = rng.choice(["random", "random", "sequential", "roundrobin", "continue"])
+            mode = rng.choice(["sequential", "roundrobin", "continue"]) if wellformed else rng.choice(["random", "random", "sequential", "roundrobin", "continue"])
             if mode == "random":
                 for _ in range(rng.randint(0, 6)):
                     plan.append(None)
@@ -70,7 +67,7 @@ def run(ctx, out):
                     fid = rng.choice(ids)
                     plan.append((fid, pos))
                     pos += len(files[fid][pos:pos + block])
-            if rng.random() < 0.3:
+            if rng.random() < 0.3 and not wellformed:
                 plan.insert(rng.randint(0, len(plan)), None)
             for planned in plan:
                 kind = rng.choice(["req", "req", "req", "req", "unknown", "noid", "nooffset", "nofile", "notlv"]) if planned is None else "req"
@@ -102,7 +99,7 @@ def run(ctx, out):
                     stopped = True
                     break
             if not stopped:
-                fin = rng.choice(["completion", "abort", "eof"])
+                fin = rng.choice(["completion", "abort"]) if wellformed else rng.choice(["completion", "abort", "eof"])
                 if fin == "eof":
                     ev += ["e:io:eof", "end"]
                 else:
@@ -120,6 +117,17 @@ def run(ctx, out):
         ops.append(f"wf {block} {password} {','.join(desc) if desc else '-'} " + ",".join(i.hex() for i in items))
         want.append(expected)
         kinds.append(f"files{min(len(files), 3)}")
+    return ops, want, kinds
+
+
+def run(ctx, out):
+    spec = S.load_spec()
+    P = G.Packets(spec)
+    rng = ctx.rng
+    thorough = ctx.search_tier == "thorough"
+    n_dirs = 1500 if thorough else 300
+    paths = sorted(f["path"] for f in spec["file_ids"])
+    ops, want, kinds = gen_cases(spec, P, rng, n_dirs, thorough)
     impl, model = ctx.pair(ops)
     out.compare("wf", ops, impl, model)
     out.evaluations = len(ops)
